@@ -108,6 +108,7 @@ class Ctx:
         os.makedirs(os.path.join(self.build, 'gen'))
         os.makedirs(os.path.join(self.build, 'props'))
         self.rng = np.random.default_rng(seed)
+        self.refuted_failed = []
         self.broken = []           # list of dicts: what no longer checks (translation / proof / correspondence)
         self.violations = []       # Violation objects found by search / correspondence with concrete input
         self.log = []
@@ -181,6 +182,17 @@ class Ctx:
         stages: list of lists of file names; files of one stage are compiled in parallel."""
         subdir = subdir or self.pid
         src = os.path.join(PROPS, subdir)
+        witness_of = {}
+        norm = []
+        for stage in stages:
+            st = []
+            for f in stage:
+                if isinstance(f, (tuple, list)):
+                    witness_of[f[0]] = f[1]['finding']
+                    f = f[0]
+                st.append(f)
+            norm.append(st)
+        stages = norm
         for stage in stages:
             for f in stage:
                 text = open(os.path.join(src, f)).read()
@@ -204,8 +216,14 @@ class Ctx:
                     self.say(f"[coq] {f}: {len(thms)} statements checked in {r['s']:.1f}s")
                 else:
                     err = (r['err'] or r['out'])[-2500:]
-                    self.broken.append({'kind': 'proof', 'file': f, 'error': 'coqc failed', 'detail': err,
-                                        'theorems': thms})
+                    rec = {'kind': 'proof', 'file': f, 'error': 'coqc failed', 'detail': err, 'theorems': thms}
+                    if f in witness_of:
+                        # a *_refuted file exhibits a known finding inside the model; whether its failure matters
+                        # is decided in finish(): only if the finding still reproduces on the implementation
+                        rec['finding'] = witness_of[f]
+                        self.refuted_failed.append(rec)
+                    else:
+                        self.broken.append(rec)
                     self.say(f"[coq] {f}: FAILED ({r['s']:.1f}s)\n{err[-1200:]}")
 
     def _axioms(self, f, out):
@@ -334,6 +352,46 @@ class Ctx:
         self.say(f"[corr] {label}: {st['cases']} cases, {st['disagree']} disagreements, max {st['max_ulp']:.3g} ulp-units, "
                  f"{len(st['paths'])} paths hit, {st['raise']} raising")
 
+    def coq_eval(self, label, preamble, exprs, timeout=900):
+        """Evaluate Gallina expressions of a hand-written model inside Coq (vm_compute).
+        preamble: list of vernacular lines (Requires, Open Scope...).  Returns one whitespace-
+        normalised result string per expression (the text Coq prints between '= ' and ': type'),
+        or None when the file does not compile (the failure is recorded as a broken correspondence)."""
+        fn = os.path.join(self.build, 'props', f"eval_{re.sub(r'[^A-Za-z0-9_]', '_', label)}.v")
+        with open(fn, 'w') as fh:
+            fh.write('\n'.join(preamble) + '\n')
+            for e in exprs:
+                fh.write(f"Eval vm_compute in ({e}).\n")
+        r = self.coqc(fn, timeout)
+        if r['rc'] != 0:
+            self.broken.append({'kind': 'correspondence', 'target': label, 'error': 'model evaluation failed',
+                                'detail': (r['err'] or r['out'])[-1500:]})
+            self.say(f"[corr] {label}: coqc failed\n{(r['err'] or r['out'])[-800:]}")
+            return None
+        outs = []
+        for chunk in re.split(r'^\s*= ', r['out'], flags=re.M)[1:]:
+            body = re.split(r'\n\s*: ', chunk)[0]
+            outs.append(' '.join(body.split()))
+        if len(outs) != len(exprs):
+            self.broken.append({'kind': 'correspondence', 'target': label,
+                                'error': f'parsed {len(outs)} results for {len(exprs)} expressions'})
+            return None
+        return outs
+
+    def disagree(self, label, inp, model, impl, note=''):
+        """record a disagreement between a hand model and the implementation"""
+        st = self.corr_stats.setdefault(label, {'cases': 0, 'disagree': 0})
+        st['disagree'] += 1
+        self.broken.append({'kind': 'correspondence', 'target': label, 'error': note or 'model and implementation differ',
+                            'input': _js(inp), 'model': _js(model), 'impl': _js(impl)})
+        if st['disagree'] <= 3:
+            self.say(f"[corr] {label}: DISAGREE on {_js(inp)}: model={_js(model)} impl={_js(impl)} {note}")
+
+    def agree(self, label, n=1):
+        st = self.corr_stats.setdefault(label, {'cases': 0, 'disagree': 0})
+        st['cases'] += n
+        self.evaluations += n
+
     # ---------------------------------------------------------------- search
     def check(self, oracle, inp, res, nontrivial_key=None):
         """record the result of one oracle evaluation.  res is None (holds) or a dict with tag/observed/expected"""
@@ -370,6 +428,14 @@ class Ctx:
                 out_lines.append(f"KNOWN-FINDING: property={self.pid} {k['what']}")
             else:
                 self.say(f"[findings] known finding no longer reproduces (repaired?): {k['what']} -> {r}")
+        rtags = {k['tag'] for k in reproduced}
+        for rec in self.refuted_failed:
+            if rec['finding'] in rtags:
+                self.broken.append(rec)     # the finding persists but the model no longer exhibits it
+            else:
+                self.obligations -= len(rec.get('theorems', []))
+                self.say(f"[findings] {rec['file']} (witness of finding {rec['finding']}) no longer compiles and the finding "
+                         f"no longer reproduces: treated as repaired, not as a violation")
         # 2. classify violations
         unknown = []
         suppressed = 0
